@@ -196,11 +196,22 @@ class LTSSMController(Elaboratable):
                 self.request_hot_reset  .eq(0)
             ]
 
-            # If we have any additional entry conditions for the given state, apply them.
-            if state in tasks_on_entry:
-                m.d.ss += tasks_on_entry[state]
+            def enter(target):
+                # If we have any additional entry conditions for the given state, apply them.
+                if target in tasks_on_entry:
+                    m.d.ss += tasks_on_entry[target]
 
-            m.next = state
+                m.next = target
+
+            # Warm reset signaling takes priority over any other transition: without this, a transition
+            # that happens to be taken in the same cycle would override the one made by handle_warm_resets().
+            if state == "Rx.Detect.Reset":
+                enter(state)
+            else:
+                with m.If(self.in_usb_reset):
+                    enter("Rx.Detect.Reset")
+                with m.Else():
+                    enter(state)
 
 
         def transition_on_timeout(timeout, *, to):
@@ -311,6 +322,7 @@ class LTSSMController(Elaboratable):
             # detect whether we're connected to another SuperSpeed transciever via a cable, so
             # we don't waste time performing link training if our link isn't there.
             with m.State("Rx.Detect.Active"):
+                handle_warm_resets()
                 m.d.comb += [
                     self.tx_electrical_idle    .eq(1),
                     self.perform_rx_detection  .eq(1)
@@ -326,6 +338,7 @@ class LTSSMController(Elaboratable):
             # We'll wait here until our next detection cycle, saving the power of performing
             # continuous detections.
             with m.State("Rx.Detect.Quiet"):
+                handle_warm_resets()
                 m.d.comb += self.tx_electrical_idle.eq(1)
 
                 # TODO: count our number of failed attempts; and disable
@@ -339,6 +352,7 @@ class LTSSMController(Elaboratable):
             # begin exchanging LFPS messages; giving the two sides the opportunity to sync up and
             # establish initial DC characteristics. [USB 3.2r1: 7.5.4.3]
             with m.State("Polling.LFPS"):
+                handle_warm_resets()
                 m.d.comb += self.tx_electrical_idle.eq(1)
 
 
